@@ -1,10 +1,249 @@
-/- driver ops for property C04 (model side of the correspondence) -/
+/- driver ops for property C04 (model side of the correspondence): one request = one call of an
+   evaluation routine, with the recorded random draws, the recorded fitter calls (arguments and
+   resulting prediction) and the recorded noise-ceiling calls (arguments and value).  The fitter
+   and the noise-ceiling function handed to the model are *lookups by argument content* (bit
+   patterns of the dissimilarities, group codes, pattern indices): a call the real routine made on
+   other data than the model expects is simply not found and surfaces as NaN. -/
 import Rsa.Core.Wire
+import Rsa.Core.Compare
+import Rsa.Core.Eval
 
-open Lean Rsa.Wire
+open Lean Rsa.Wire Rsa.Eval
 
 namespace Rsa.Drv.C04
 
-def handle : Handler := fun _op _j => none
+/-! ### keys -/
+
+structure CKey where
+  vecs : List (List (Option UInt64))
+  rdesc : List Nat
+  pdesc : List Nat
+deriving DecidableEq
+
+inductive NKey where
+  | boot (o : CKey)
+  | cv (w : CKey) (ceil test : List (CKey × List Nat))
+deriving DecidableEq
+
+def keyOf (c : Content Float) : CKey :=
+  { vecs := c.vecs.map (fun v => v.map (fun e => e.map Float.toBits))
+    rdesc := c.rdesc, pdesc := c.pdesc }
+
+def pkeyOf (p : Piece Float) : CKey × List Nat := (keyOf p.obj, p.pidx)
+
+def nkeyOf : NcReq Float → NKey
+  | .boot o => .boot (keyOf o)
+  | .cv w c t => .cv (keyOf w) (c.map pkeyOf) (t.map pkeyOf)
+
+/-! ### decoding -/
+
+def nan : Float := 0.0 / 0.0
+
+def asContent (j : Json) : R (Content Float) := do
+  let vecs ← fld j "vecs" >>= asList (asList (asOpt asFloat))
+  let rdesc ← fld j "rdesc" >>= asList asNat
+  let pdesc ← fld j "pdesc" >>= asList asNat
+  pure { vecs := vecs, rdesc := rdesc, pdesc := pdesc }
+
+def asPiece (j : Json) : R (Piece Float) := do
+  let o ← fld j "obj" >>= asContent
+  let p ← fld j "pidx" >>= asList asNat
+  pure { obj := o, pidx := p }
+
+def asPair (j : Json) : R (Float × Float) := do
+  match ← asList (asOpt asFloat) j with
+  | [a, b] => pure (a.getD nan, b.getD nan)
+  | _ => throw "noise ceiling value must have two entries"
+
+def asFitEntry (j : Json) : R ((Nat × CKey × List Nat) × List Float) := do
+  let k ← fld j "j" >>= asNat
+  let p ← asPiece j
+  let pred ← fld j "pred" >>= asList asFloat
+  pure ((k, keyOf p.obj, p.pidx), pred)
+
+def asNcEntry (j : Json) : R (NKey × (Float × Float)) := do
+  let kind ← fld j "kind" >>= asStr
+  let val ← fld j "val" >>= asPair
+  if kind = "boot" then
+    let o ← fld j "obj" >>= asContent
+    pure (.boot (keyOf o), val)
+  else
+    let w ← fld j "whole" >>= asContent
+    let c ← fld j "ceil" >>= asList asPiece
+    let t ← fld j "test" >>= asList asPiece
+    pure (.cv (keyOf w) (c.map pkeyOf) (t.map pkeyOf), val)
+
+def asData (j : Json) : R (Data Float) := do
+  let n ← fld j "n" >>= asNat
+  let vecs ← fld j "vecs" >>= asList (asList asFloat)
+  let rdesc ← fld j "rdesc" >>= asList asNat
+  let pdesc ← fld j "pdesc" >>= asList asNat
+  pure { nCond := n, vecs := vecs, rdesc := rdesc, pdesc := pdesc }
+
+def asBt (j : Json) : R BootType := do
+  match ← asStr j with
+  | "both" => pure .both
+  | "rdm" => pure .rdm
+  | "pattern" => pure .pattern
+  | s => throw s!"unknown boot type {s}"
+
+def asDraw (j : Json) : R Draw := do
+  let r ← asList asNat (fldD j "r" (Json.arr #[]))
+  let p ← asList asNat (fldD j "p" (Json.arr #[]))
+  pure { r := r, p := p }
+
+def asCvDraw (j : Json) : R CvDraw := do
+  let r ← fld j "rsel" >>= asList asNat
+  let p ← fld j "psels" >>= asList (asList asNat)
+  pure { rsel := r, psels := p }
+
+def asShufflePair (j : Json) : R (List Nat × List Nat) := do
+  let r ← fld j "rsel" >>= asList asNat
+  let p ← fld j "psel" >>= asList asNat
+  pure (r, p)
+
+/-- a measure that refuses vectors of different length (an unmatched fitter call yields an empty
+    prediction) -/
+def measureF (method : String) : R (List Float → List Float → Float) := do
+  let f : List Float → List Float → Float ←
+    match method with
+    | "cosine" => pure Rsa.Compare.cosine
+    | "corr" => pure Rsa.Compare.corr
+    | "spearman" => pure Rsa.Compare.spearman
+    | "rho-a" => pure Rsa.Compare.rhoA
+    | "tau-a" => pure Rsa.Compare.tauA
+    | m => throw s!"unknown method {m}"
+  pure (fun x y => if x.length = y.length ∧ x.length ≠ 0 then f x y else nan)
+
+/-! ### encoding -/
+
+def ofOF : Option Float → Json := ofOpt ofFloat
+def ofPair (p : Float × Float) : Json := ofList ofFloat [p.1, p.2]
+def ofMat (m : List (List (Option Float))) : Json := ofList (ofList ofOF) m
+
+def ofCvRow (r : CvRow Float) : Json :=
+  match r with
+  | none => Json.null
+  | some reps => ofList (fun rep => obj [("evals", ofList (ofList ofOF) rep.1), ("nc", ofPair rep.2)]) reps
+
+/-! ### fold generators for the plain `crossval` op -/
+
+def asFolds (d : Data Float) (j : Json) : R (List Rsa.Folds.Fold × Bool) := do
+  let gen ← fld j "gen" >>= asStr
+  let o := objOf d (fullView d)
+  match gen with
+  | "k_fold" =>
+    let cd ← asCvDraw j
+    let kr ← fld j "kr" >>= asNat
+    let kp ← fld j "kp" >>= asNat
+    pure ((Rsa.Folds.kFoldV cd.rsel kr cd.psels kp).map (Rsa.Folds.realize o), true)
+  | "k_fold_pattern" =>
+    let sel ← fld j "psel" >>= asList asNat
+    let kp ← fld j "kp" >>= asNat
+    pure ((Rsa.Folds.kFoldPatternV sel kp).map (Rsa.Folds.realize o), false)
+  | "k_fold_rdm" =>
+    let sel ← fld j "rsel" >>= asList asNat
+    let kr ← fld j "kr" >>= asNat
+    pure ((Rsa.Folds.kFoldRdmV sel kr).map (Rsa.Folds.realize o), true)
+  | "loo_rdm" =>
+    let sel ← fld j "rsel" >>= asList asNat
+    pure ((Rsa.Folds.looRdmV sel).map (Rsa.Folds.realize o), true)
+  | "loo_pattern" =>
+    let sel ← fld j "psel" >>= asList asNat
+    pure ((Rsa.Folds.looPatternV sel).map (Rsa.Folds.realize o), true)
+  | g => throw s!"unknown generator {g}"
+
+/-! ### the op -/
+
+def runOp (j : Json) : R Json := do
+  let routine ← fld j "routine" >>= asStr
+  let d ← fld j "data" >>= asData
+  let m ← fld j "method" >>= asStr >>= measureF
+  let fits ← asList asFitEntry (fldD j "fits" (Json.arr #[]))
+  let ncs ← asList asNcEntry (fldD j "ncs" (Json.arr #[]))
+  let fit : Nat → Piece Float → Option (List Float) :=
+    fun k p => fits.lookup (k, keyOf p.obj, p.pidx)
+  let predict : Nat → Option (List Float) → List Float := fun _ θ => θ.getD []
+  let ncf : NcReq Float → Float × Float := fun r => (ncs.lookup (nkeyOf r)).getD (nan, nan)
+  let preds ← asList (asList asFloat) (fldD j "preds" (Json.arr #[]))
+  let nModels ← asNat (fldD j "n_models" (ofNat preds.length))
+  let bt ← asBt (fldD j "bt" (Json.str "both"))
+  match routine with
+  | "fixed" =>
+    let r := evalFixed m ncf d preds
+    pure (obj [("evals", ofList (ofList ofFloat) r.evals), ("nc", ofPair r.nc),
+               ("cov", ofOpt ofMat r.cov), ("dof", ofInt r.dof)])
+  | "bootstrap" =>
+    let bootNc ← fld j "boot_nc" >>= asBool
+    let mo ← asBool (fldD j "rdm_cov_models_only" (Json.bool true))
+    let draws ← fld j "draws" >>= asList asDraw
+    let r := evalBootstrap m ncf bt bootNc mo d preds draws
+    let full := evalBootstrap m ncf bt bootNc false d preds draws
+    pure (obj [("evals", ofList (fun (row : Row Float) => ofList ofOF row.evals) r.rows),
+               ("nc", ofList (fun (row : Row Float) => ofOpt ofPair row.nc) r.rows),
+               ("nc_data", ofOpt ofPair r.ncData),
+               ("cov", ofMat r.cov), ("cov_with_nc", ofMat full.cov), ("dof", ofInt r.dof)])
+  | "crossval" =>
+    let (folds, hasCeil) ← fld j "folds" >>= asFolds d
+    let calcNc ← asBool (fldD j "calc_nc" (Json.bool true))
+    let r := crossval m fit predict ncf d nModels folds hasCeil calcNc
+    pure (obj [("evals", ofList (ofList ofOF) r.evals), ("nc", ofList ofPair r.nc)])
+  | "bcv" =>
+    let kr ← fld j "kr" >>= asNat
+    let kp ← fld j "kp" >>= asNat
+    let nCv ← fld j "n_cv" >>= asNat
+    let uc ← fld j "use_correction" >>= asBool
+    let draws ← fld j "draws" >>= asList (fun e => do
+      let dr ← asDraw e
+      let reps ← asList asCvDraw (fldD e "reps" (Json.arr #[]))
+      pure (dr, reps))
+    let r := bootstrapCrossval m fit predict ncf bt d nModels kr kp nCv uc draws
+    pure (obj [("rows", ofList ofCvRow r.rows), ("cov", ofMat r.cov), ("dof", ofInt r.dof)])
+  | "dual" =>
+    let kr ← fld j "kr" >>= asNat
+    let kp ← fld j "kp" >>= asNat
+    let nCv0 ← fld j "n_cv" >>= asNat
+    let uc0 ← fld j "use_correction" >>= asBool
+    let (nCv, uc) := dualOptions kr kp nCv0 uc0
+    let draws ← fld j "draws" >>= asList (fun e => do
+      let dr ← asDraw e
+      let reps ← asList (asList asCvDraw) (fldD e "reps" (Json.arr #[]))
+      pure (dr, reps))
+    let r := evalDualBootstrap m fit predict ncf d nModels kr kp nCv uc draws
+    pure (obj [("rows", ofList (ofList ofCvRow) r.rows), ("cov", ofList ofMat r.cov),
+               ("dof", ofInt r.dof), ("n_cv", ofNat nCv)])
+  | "random" =>
+    let nr ← fld j "nr" >>= asNat
+    let np ← fld j "np" >>= asNat
+    let nCv ← fld j "n_cv" >>= asNat
+    let uc ← fld j "use_correction" >>= asBool
+    let draws ← fld j "draws" >>= asList (fun e => do
+      let dr ← asDraw e
+      let sh ← asList asShufflePair (fldD e "shuffles" (Json.arr #[]))
+      pure (dr, sh))
+    let r := evalDualBootstrapRandom m fit predict ncf bt d nModels nr np nCv uc draws
+    pure (obj [("rows", ofList ofCvRow r.rows), ("cov", ofMat r.cov), ("dof", ofInt r.dof)])
+  | "testset" =>
+    let draws ← fld j "draws" >>= asList asDraw
+    let rows := draws.map (testsetRow m fit predict bt d nModels)
+    pure (obj [("evals", ofList (fun (r : List (Option Float) × Nat × Nat) => ofList ofOF r.1) rows),
+               ("n_rdm", ofList (fun (r : List (Option Float) × Nat × Nat) => ofNat r.2.1) rows),
+               ("n_pattern", ofList (fun (r : List (Option Float) × Nat × Nat) => ofNat r.2.2) rows)])
+  | r => throw s!"unknown routine {r}"
+
+/-- the selections of one bootstrap draw (for diagnostics and the oracle's cross-check) -/
+def sampleOp (j : Json) : R Json := do
+  let d ← fld j "data" >>= asData
+  let bt ← asBt (fldD j "bt" (Json.str "both"))
+  let dr ← fld j "draw" >>= asDraw
+  let s := sampleOf bt d dr
+  pure (obj [("rows", ofList ofNat s.1.rows), ("conds", ofList ofNat s.1.conds),
+             ("rdm_idx", ofList ofNat s.2.1), ("pattern_idx", ofList ofNat s.2.2)])
+
+def handle : Handler := fun op j =>
+  match op with
+  | "c04.run" => some (runOp j)
+  | "c04.sample" => some (sampleOp j)
+  | _ => none
 
 end Rsa.Drv.C04
